@@ -184,6 +184,10 @@ func runHistory(h *simrt.History, emit func(*simrt.CallResult)) {
 		case "symlink":
 			w.PutLink(st.File, st.Link)
 			res.Kind = "ok"
+		case "hardlink":
+			w.Del(st.File)
+			w.PutHardLink(st.File, st.Link)
+			res.Kind = "ok"
 		case "move":
 			w.Move(st.From, st.To)
 			res.Kind = "ok"
